@@ -1341,3 +1341,6 @@ _add("C20", "partial", [
     "the serializer model's definition on Num.lit + c03_display_number; no text -> value -> text theorem is listed (c04_value_ap is value "
     "-> text -> value)",
 ])
+
+# wip-range: the number-range clause on the specification side (Spec.Range, Props/C01Range)
+PROPS["C01"]["lean_targets"] = ["SJ.Props.C01", "SJ.Props.C01Iff", "SJ.Props.C01Range", "SJ.Audit.C01"]
